@@ -341,11 +341,17 @@ func BuildSelect(query *Query, slct *sqlparser.Select) error {
 }
 
 func BuildUnion(query *Query, expr *sqlparser.Union) error {
-	leftStatement, err := unionBranch(expr.Left, expr.With)
+	// the WITH in front of a union is declared once, in the scope every
+	// branch reads: a CTE that several branches read is evaluated once
+	err := BuildCte(query, expr.With)
 	if err != nil {
 		return err
 	}
-	rightStatement, err := unionBranch(expr.Right, expr.With)
+	leftStatement, err := unionBranch(expr.Left, nil)
+	if err != nil {
+		return err
+	}
+	rightStatement, err := unionBranch(expr.Right, nil)
 	if err != nil {
 		return err
 	}
